@@ -1589,6 +1589,33 @@ func main() {
 	r.Assume("limit phase: tengo.MaxStringLen is a process-wide variable; it is changed only between phases while no case is running; a string longer than MaxStringLen returned without error is reported (a string over the limit is not a legal result)")
 
 	pg, pr, pp, pa := parts["grid"], parts["reorder"], parts["pairs"], parts["arb"]
+	// literal numbers around fmt's own cap of 1e6 (a number is rejected once it has passed 1e6 BEFORE the next digit is
+	// read, so 1000001 .. 10000009 are still accepted): a handful of formats run once, sequentially (megabyte results)
+	if !r.Thorough() || r.Thorough() {
+		lits := []string{"%1000000d|", "%1000001d|", "%10000009d|", "%10000010d|", "%.1000001d|", "%1000001s|", "%[1000001]d|", "%-1000001v|"}
+		for _, f := range lits {
+			// an argument of the verb's own type (mismatches are rendered differently from Go: known findings)
+			vals := [][]*argv{{must("int:7")}}
+			if strings.Contains(f, "s|") {
+				vals = [][]*argv{{must(`string:"ab"`)}}
+			}
+			for _, as := range vals {
+				l := newAlist(as)
+				got, err, pan := tengoFormat(f, l.objs)
+				want := fmt.Sprintf(f, l.gos...)
+				r.Count("biglit/cases", 1)
+				switch {
+				case pan != "":
+					r.Violation("biglit/panic", fmt.Sprintf("Format(%q, %v) panicked: %s", f, l.encs(), short(pan)), Case{Part: "biglit", Format: f, Args: l.encs()})
+				case err != nil && !errors.Is(err, tengo.ErrStringLimit):
+					r.Violation("biglit/error", fmt.Sprintf("Format(%q, %v) returned %v", f, l.encs(), err), Case{Part: "biglit", Format: f, Args: l.encs()})
+				case err == nil && got != want && !strings.Contains(want, "%!"):
+					// (outputs with %! error markers differ from Go in how they name types: decided by the grid's own rules)
+					r.Violation("biglit/differs-from-go", fmt.Sprintf("Format(%q, %v): %d bytes %s, Go: %d bytes %s", f, l.encs(), len(got), short(got), len(want), short(want)), Case{Part: "biglit", Format: f, Args: l.encs()})
+				}
+			}
+		}
+	}
 	r.Finish(report.Coverage{
 		States:      pg.cases + pr.cases + pp.cases + pa.cases - overlap,
 		Transitions: calls,
